@@ -408,6 +408,11 @@ def oracle_transfers(scn, res):
                     v.append((ci, "upload/ascii-peer-received-other-bytes", "peer got %d bytes, the source of %d converts to %d" % (len(rec["bytes"]), len(e["source"]), len(to_crlf(e["source"])))))
                 if typ == "I" and not e.get("cancelled") and rec["bytes"] != e["source"]:
                     v.append((ci, "upload/peer-received-other-bytes", "peer got %d bytes, source holds %d" % (len(rec["bytes"]), len(e["source"]))))
+                # C04: end of file is signalled by closing the data connection - after a TLS close-notify when TLS is on
+                if not e.get("cancelled") and rec.get("eof") in ("truncated", "reset"):
+                    v.append((ci, "upload/data-connection-not-ended-cleanly",
+                              "the peer saw the upload's data connection end by %s" % (
+                                  "a TCP close without the TLS close-notify" if rec["eof"] == "truncated" else "a reset")))
                 if cb is not None and not e.get("cancelled"):
                     notes = [int(t[1:]) for t in io if re.fullmatch(r"n\d+", t)]
                     if sum(notes) != len(rec["bytes"]):
@@ -631,7 +636,12 @@ def fam_downloads(rng, n, dist, thorough=False):
     sizes = [0, 1, 8191, 8192, 8193, 16383, 16384, 16385, 20000] + ([100000, 1 << 20] if thorough else [])
     for i in range(n):
         mode, rfc = ALL_METHODS[i % 4]
-        b = S.Builder(rng, mode, rfc, type="I", ip6=(i % 7 == 3))
+        tls = (i % 3 == 1)                 # "with or without TLS": a third of the sessions are FTPS (TLS 1.2 / 1.3, resumption on / off)
+        if tls:
+            b = S.Builder(rng, mode, rfc, type="I", tls=True, resume=rng.random() < 0.6, tlsver=rng.choice(["12", "13"]))
+            dist.add("download:over-tls")
+        else:
+            b = S.Builder(rng, mode, rfc, type="I", ip6=(i % 7 == 3))
         b.connect(login=(b"u", b"p"))
         for _ in range(rng.randrange(1, 4)):
             size = rng.choice(sizes)
@@ -720,8 +730,30 @@ def fam_faults(rng, n, dist, thorough=False):
         sess = scn["sessions"][0]
         nre = len(sess["reactions"])
         k = rng.randrange(-1, nre)            # -1: the greeting itself
-        how = rng.choice(["close", "reset", "partial", "partial-code", "data-reset", "data-bare-close"])
+        how = rng.choice(["close", "reset", "partial", "partial-code", "data-reset", "data-bare-close", "garbled-setup"])
         r = sess["greeting"] if k < 0 else sess["reactions"][k]
+        if how == "garbled-setup":
+            # the 227 / 229 reply carries something else than an endpoint (server-supplied text meets format strings,
+            # address parsers, number parsers): the call must end with ftp_exception, the session goes on
+            ks = next((j for j, x in enumerate(sess["reactions"]) if x["now"] and x["now"][0][0] == "R" and x["now"][0][1] in (227, 229)
+                       and b"{" in x["now"][0][2]), None)
+            if ks is None:
+                how = "close"
+            else:
+                it = sess["reactions"][ks]["now"][0]
+                if it[1] == 227:
+                    bad = rng.choice(["(%1%,0,0,1,{p1},{p2})", "(127,0,0,1%,{p1},{p2})", "(999,0,0,1,{p1},{p2})", "({h},{p1},{p2},)",
+                                      "({h},{p1})", "({h},256,{p2})", "{h},{p1},{p2}", "(::1,0,0,1,{p1},{p2})", "(%s%n%d,0,0,1,{p1},{p2})",
+                                      "({h},{p1},{p2}", "()", "(,,,,,)", "({h},{p1},-1)", "(0x7f,0,0,1,{p1},{p2})", "({h},{p1},99999999999999999999)"])
+                    text = "227 Entering Passive Mode %s." % bad
+                else:
+                    bad = rng.choice(["(|||{P})", "(|||99999|)", "(||{P}|)", "(|||%1%|)", "(|||{P}|", "()", "(||||)", "(|||-1|)", "(|||%s%n|)",
+                                      "|||{P}|", "(|1|127.0.0.1|{P}|)", "(|||18446744073709551616|)", "(   {P} )"])
+                    text = "229 Entering Extended Passive Mode %s" % bad
+                sess["reactions"][ks]["now"][0] = (it[0], it[1], text.encode("latin-1")) + tuple(it[3:])
+                if ks + 1 < len(sess["reactions"]) and sess["reactions"][ks + 1].get("data"):
+                    del sess["reactions"][ks + 1]          # the transfer command is never sent
+                    scn["xfer_map"] = {}
         if how in ("data-reset", "data-bare-close") and not any(x.get("data") for x in sess["reactions"]):
             how = "close"
         if how == "close":
@@ -740,6 +772,8 @@ def fam_faults(rng, n, dist, thorough=False):
                 if x.get("data"):
                     x["data"]["end"] = "R" if how == "data-reset" else "X"
                     x["data"]["segs"] = x["data"].get("segs", [])[:1]
+        elif how == "garbled-setup":
+            pass
         else:
             r["close_after"] = True; r["on_close"] = []
         # expectations of the reference builder no longer apply after the cut: the model decides (correspondence), the
@@ -757,7 +791,12 @@ def fam_uploads(rng, n, dist, thorough=False):
     sizes = [0, 1, 8191, 8192, 8193, 16383, 16384, 16385, 20000] + ([100000, 1 << 20] if thorough else [])
     for i in range(n):
         mode, rfc = ALL_METHODS[i % 4]
-        b = S.Builder(rng, mode, rfc, type="I", ip6=(i % 7 == 3))
+        tls = (i % 3 == 1)                 # a third of the sessions are FTPS: end of file = TLS close-notify, then the TCP close
+        if tls:
+            b = S.Builder(rng, mode, rfc, type="I", tls=True, resume=rng.random() < 0.6, tlsver=rng.choice(["12", "13"]))
+            dist.add("upload:over-tls%s" % ("+resumption" if b.cfg["resume"] else ""))
+        else:
+            b = S.Builder(rng, mode, rfc, type="I", ip6=(i % 7 == 3))
         b.connect(login=(b"u", b"p"))
         for _ in range(rng.randrange(1, 4)):
             size = rng.choice(sizes)
@@ -862,8 +901,21 @@ def fam_args(rng, n, dist):
     out = []
     evil = [b"x\r\nDELE y", b"\n", b"\r", b"a\r", b"a\nb", b"\r\nQUIT\r\n", b"ok", b"", b"\x00\xff", b" ", b"a b c", b"x" * 300]
     for i in range(n):
-        b = S.Builder(rng, *rng.choice(ALL_METHODS))
+        tls = rng.random() < 0.35   # over TLS too: one line is one write, whatever the TLS record size (16384)
+        if tls:
+            b = S.Builder(rng, *rng.choice(ALL_METHODS), tls=True, resume=rng.random() < 0.5, tlsver=rng.choice(["12", "13"]))
+        else:
+            b = S.Builder(rng, *rng.choice(ALL_METHODS))
         t1, t2 = rng.choice(evil), rng.choice(evil)
+        if rng.random() < 0.25:
+            # long texts: around the TLS record size and the socket buffer sizes, with a CR / LF deep inside now and then
+            ln = rng.choice([8185, 8192, 16370, 16379, 16380, 16381, 16384, 16390, 20000, 32768, 40000, 70000])
+            t1 = bytes(rng.choice(b"abcdefghij /._-") for _ in range(64)) * (ln // 64 + 1)
+            t1 = t1[:ln]
+            if rng.random() < 0.2:
+                k = rng.randrange(0, ln)
+                t1 = t1[:k] + rng.choice([b"\r\nNOOP", b"\n", b"\r"]) + t1[k:]
+            dist.add("args:long-text-%d%s" % (ln, ":tls" if tls else ""))
         bad1, bad2 = (b"\r" in t1 or b"\n" in t1), (b"\r" in t2 or b"\n" in t2)
         which = i % 7
         if which == 0:
@@ -1367,6 +1419,15 @@ def check_into(rep, prop, tier, rng, module=None, merge=False):
             if not is_bad(scns[i], r):
                 rep.notes.append("scenario %d disagreed in the parallel run and agreed when re-run alone (load): not reported" % i)
             results[i] = r
+        # ... and a few that still disagree, a third time, one at a time: a race between the two streams of a session
+        # (control and data) can repeat under the same load; what is reported has shown up three times out of three
+        still = [i for i in bad if is_bad(scns[i], results[i]) and results[i]["status"] == "ok"]
+        if 0 < len(still) <= 6:
+            third = P.run_scenarios([scns[i] for i in still], exe, drv, work, tier + "-third", nworkers=1, env=env)
+            for i, r in zip(still, third):
+                if not is_bad(scns[i], r):
+                    rep.notes.append("scenario %d disagreed twice and agreed in a third run, alone (timing): not reported" % i)
+                    results[i] = r
     ndis, examples, nontriv = 0, [], 0
     for si, (scn, res) in enumerate(zip(scns, results)):
         for log in res["peer"]:
